@@ -138,7 +138,18 @@ def r1_errors_carry_location(ctx: Ctx) -> None:
     pos = repo.func("a816.parse.tokens", "Position.__str__")
     ctx.check("self.file.filename" in unparse(pos.node) and "self.line" in unparse(pos.node) and "self.column" in unparse(pos.node), "Position.__str__", "file:line:column")
     pk = repo.func(PST, "parse_keyword")
-    ctx.check(any(unparse(c) == "scanner.scan(filename, source)" for c in calls_in(pk.node)), "parse_keyword[include]:own-file", "an included file is scanned under its own name, so its errors name it")
+    # the `.include` scan may live in parse_keyword or in a helper it was moved to: find the scan call next to the open() of the file
+    scans = []
+    for f_ in repo.module(PST).functions.values():
+        opens = [c for c in calls_in(f_.node) if call_name(c) == "open"]
+        for c in calls_in(f_.node):
+            if (call_name(c) or "").endswith(".scan") and len(c.args) == 2 and opens:
+                scans.append((f_, c, opens[0]))
+    if not scans:
+        raise AnalysisError("parse_keyword[include]: the scan of the included file was not found")
+    for f_, c, op in scans:
+        ctx.check(_canon17(f_.node, c.args[0]) == _canon17(f_.node, op.args[0]), f"{f_.qualname}[include]:own-file",
+                  f"an included file is scanned under the name it was opened with, so its errors name it; scan({unparse(c.args[0])}, ...) after open({unparse(op.args[0])})")
     sc = repo.func(SCN, "Scanner.scan")
     ctx.check(any(unparse(s) == f"self.file = File({sc.params()[1]})" for s in sc.node.body), "Scanner.scan:file", "positions refer to the File of the text being scanned")
 
